@@ -122,6 +122,25 @@ def _fits(lo, hi):
 class SInt(object):
     __slots__ = ('t', 'lo', 'hi', 'tz')
 
+    def to_bytes(self, length, byteorder='big', *, signed=False):
+        """int.to_bytes (assumed Python semantics): two's-complement / unsigned big- or little-endian bytes of exactly `length`
+        bytes; OverflowError when the value does not fit (decided per path)."""
+        from .builtins_model import int_bytes
+        if not isinstance(length, int) or isinstance(signed, SBool):
+            raise Unsupported('int.to_bytes with a symbolic length / signedness')
+        if byteorder not in ('big', 'little'):
+            raise ValueError("byteorder must be either 'little' or 'big'")
+        E = engine()
+        lo, hi = (-(1 << (8 * length - 1)), (1 << (8 * length - 1)) - 1) if signed else (0, (1 << (8 * length)) - 1)
+        fits = And(self >= lo, self <= hi)
+        if not (fits if isinstance(fits, bool) else E.decide(fits.t)):
+            neg = self < 0
+            if not signed and (neg if isinstance(neg, bool) else E.decide(neg.t)):
+                raise OverflowError("can't convert negative int to unsigned")
+            raise OverflowError('int too big to convert')
+        bs = int_bytes(self, length)
+        return SBytes(bs[::-1] if byteorder == 'little' and length > 1 else bs)
+
     def __init__(self, t, lo=None, hi=None):
         self.t = t
         self.lo = lo
